@@ -226,8 +226,13 @@ def run(ctx):
     # ---- code -> spec
     rnd = random.Random(ctx.seed)
     trace = []
+    # classes of scenarios that already failed in the replay are left out (they would be rejected for the same reason;
+    # which of them a seed hits would make the keys depend on the seed)
+    failed = set(key.split("]:")[0] + "]" for key in found if "]:" in key)
     for _ in range(2500 if ctx.thorough else 400):
         sc = rt.rand_scenario(rnd)
+        if rt.label(sc) in failed:
+            continue
         try:
             res, log = rt.run_scenario(sc)
         except Exception as exc:     # noqa
@@ -251,7 +256,7 @@ def run(ctx):
         lab = rt.label(bad["sc"])
         pending = [r for r in pending[acc + 1:] if rt.label(r["sc"]) != lab]
     if trace:
-        ctx.sample({"recorded_execution": trace[1]})
+        ctx.sample({"recorded_execution": trace[min(1, len(trace) - 1)]})
 
         def corrupt(r):
             if r["sc"]["mode"] == "write" and r["obs"]["ok"] and len(r["sc"]["vals"]) >= 2:
